@@ -852,6 +852,46 @@ func c19(c *core.Ctx) {
 				}
 			}
 			c.Check(okBool, key+":bool-options", pa.Pos(), fmt.Sprintf("each boolean option stores into its own field %v", fieldOfOpt), fmt.Sprintf("boolean options do not each store into their own field: %v", fieldOfOpt))
+			// the words a boolean option's value may be: compared as constants by the function that turns the
+			// value into a bool (or by the parser itself). The set is part of the plugin's command-line interface:
+			// a build script that passes legacy_stubs=yes must not start to fail
+			{
+				words := map[string]bool{}
+				collect := func(f *ssa.Function) {
+					for _, ef := range core.EdgeFactsOf(f) {
+						if ef.Fact.Op != token.EQL {
+							continue
+						}
+						if sv, ok := core.ConstString(ef.Fact.Y); ok && !names[sv] && sv != "import" && sv != "source_relative" && sv != "" {
+							words[sv] = true
+						}
+					}
+				}
+				var bv *ssa.Function
+				for _, h := range core.HelperCallsOf(body) {
+					if h.Callee == nil || h.Callee.Blocks == nil || !core.PkgIs(h.Callee, genPkg) {
+						continue
+					}
+					rs := h.Callee.Signature.Results()
+					if rs.Len() == 2 && core.TypeStr(rs.At(0).Type()) == "bool" && core.IsErrorType(rs.At(1).Type()) {
+						bv = h.Callee
+					}
+				}
+				if bv != nil {
+					collect(bv)
+					for _, h := range core.HelperCallsOf(bv) {
+						if h.Callee != nil && h.Callee.Blocks != nil && core.PkgIs(h.Callee, genPkg) {
+							collect(h.Callee)
+						}
+					}
+				} else {
+					collect(body)
+				}
+				wantW := []string{"0", "1", "false", "no", "off", "on", "true", "yes"}
+				gotW := keysOf(words)
+				sort.Strings(gotW)
+				c.Check(strings.Join(gotW, ",") == strings.Join(wantW, ","), key+":bool-words", pa.Pos(), fmt.Sprintf("a boolean option's value is one of %v (any case)", wantW), fmt.Sprintf("the words accepted as the value of a boolean option are %v, want %v: an option spelling that build scripts use is now refused (or a new one silently accepted)", gotW, wantW))
+			}
 			// M<file>=<path>: stored under exactly the option name minus its one-letter prefix
 			nM := 0
 			core.Instrs(body, func(in ssa.Instruction) {
@@ -945,6 +985,30 @@ func c19(c *core.Ctx) {
 					}
 				}
 			}
+		}
+		c.EndRule()
+	}
+
+	// ---------------------------------------------------------------- R6
+	if c.Rule("R6", "what was generated is what protoc gets: the generator only writes into the plugin response (OutputFile / OutputSnippet / SupportsFeatures); the response's contents are one-shot readers that the plugin runner serialises, so nothing of the generator reads them back (ForEach) — a reader emptied by a report or a post-processing pass leaves an empty file", 1) {
+		writes := map[string]bool{"OutputFile": true, "OutputSnippet": true, "SupportsFeatures": true}
+		for _, fn := range p.LibFuncs(genPkg) {
+			core.Instrs(fn, func(in ssa.Instruction) {
+				cc := core.CallOf(in)
+				if cc == nil {
+					return
+				}
+				ci := core.InfoOf(cc)
+				if ci.Static == nil || ci.Static.Signature.Recv() == nil || core.NamedOf(ci.Static.Signature.Recv().Type()) != "CodeGenResponse" {
+					return
+				}
+				k := core.FuncName(fn) + ":response." + ci.Name
+				if writes[ci.Name] {
+					c.Ok(k+":write-only", in.Pos(), "the generator writes into the response")
+				} else {
+					c.Fail(k+":write-only", in.Pos(), "the generator calls %s on the plugin response: the response's file contents are readers that are consumed once, by the plugin runner; whatever reads them first leaves protoc an empty file", ci.Name)
+				}
+			})
 		}
 		c.EndRule()
 	}
